@@ -1039,11 +1039,15 @@ class TLSRecordLayer(object):
 
                 # See if there's an alert record
                 # Could raise socket.error or TLSAbruptCloseError
-                for result in self._getNextRecord():
-                    if result in (0, 1):
-                        yield result
-                    else:
-                        break
+                try:
+                    for result in self._getNextRecord():
+                        if result in (0, 1):
+                            yield result
+                        else:
+                            break
+                except (socket.error, TLSAbruptCloseError):
+                    self._shutdown(False)
+                    raise
 
                 # Closes the socket
                 self._shutdown(False)
@@ -1053,6 +1057,8 @@ class TLSRecordLayer(object):
                 if recordHeader.type == ContentType.alert:
                     alert = Alert().parse(p)
                     raise TLSRemoteAlert(alert)
+                # anything else: report the failed send
+                raise
             else:
                 # If we got some other message who know what
                 # the remote side is doing, just go ahead and
